@@ -14,6 +14,22 @@ pub enum H {
     /// operation, expected to succeed? (a path on which the expectation fails ends there)
     Do(Op, bool),
     Advance(u64),
+    /// operation without an expectation: obligations are checked, the history continues whatever the outcome
+    Try(Op),
+    /// switch between fixed constants and fresh symbols for the inputs of the following operations
+    Fix(bool),
+    /// operation whose argument is chosen from the current store (oldest submitted batch, oldest in-flight packet ...)
+    Dyn(DynOp),
+}
+
+#[derive(Clone, Debug)]
+pub enum DynOp {
+    /// ReceiveUnstakedTokens for the oldest Submitted batch from the given account
+    RecvOldest(P),
+    /// Withdraw by the user from the oldest Received batch in which the user has a request (else batch 1)
+    WithdrawAny(usize),
+    /// IBC outcome for the oldest transfer still in flight
+    IbcOldest(u8),
 }
 
 pub fn fresh(cfg: &CfgSpec) -> Built {
@@ -25,7 +41,7 @@ pub fn fresh(cfg: &CfgSpec) -> Built {
     let mut wc = BTreeMap::new();
     wc.insert(1u64, 0u64);
     let ghost = Ghost { paid: BTreeMap::new(), wd, wcount: wc, don_n: "0".into(), don_l: "0".into(), delivered: "0".into(), swept: "0".into() };
-    Built { chain, ghost, last_stake: None, roundtrip: None }
+    Built { chain, ghost, last_stake: None, roundtrip: None, fixed_inputs: false, poisoned: false }
 }
 
 pub fn hist_case(name: &str, cfg: CfgSpec, steps: Vec<H>) -> Case {
@@ -52,6 +68,43 @@ pub fn hist_case(name: &str, cfg: CfgSpec, steps: Vec<H>) -> Case {
             for (i, h) in steps.iter().enumerate() {
                 match h {
                     H::Advance(secs) => b.chain.advance(*secs),
+                    H::Fix(on) => b.fixed_inputs = *on,
+                    H::Try(_) | H::Dyn(_) => {
+                        let op = match h {
+                            H::Try(op) => Some(op.clone()),
+                            H::Dyn(d) => {
+                                let sn = scen::snap(&b.chain);
+                                match d {
+                                    DynOp::RecvOldest(p) => sn.batches.iter().find(|(_, x)| x.status == milky_way::staking::BatchStatus::Submitted).map(|(id, _)| Op::ReceiveUnstaked { sender: p.clone(), batch: *id, funds: Funds::Native }),
+                                    DynOp::WithdrawAny(u) => {
+                                        let user = step::who_addr(&who, &P::U(*u));
+                                        let id = sn.batches.iter().find(|(id, x)| x.status == milky_way::staking::BatchStatus::Received && sn.reqs.contains_key(&(**id, user.clone()))).map(|(id, _)| *id).unwrap_or(1);
+                                        Some(Op::Withdraw { sender: P::U(*u), batch: id })
+                                    }
+                                    DynOp::IbcOldest(o) => b.chain.w.packets.iter().find(|p| p.state == crate::world::PState::Sent).map(|p| Op::Ibc { seq: p.seq, outcome: *o }),
+                                }
+                            }
+                            _ => None,
+                        };
+                        if let Some(op) = op {
+                            if let Op::Ibc { seq, .. } = &op {
+                                if !b.chain.w.packets.iter().any(|p| p.seq == *seq && p.state == crate::world::PState::Sent) {
+                                    continue;
+                                }
+                            }
+                            let out = step::run(&mut b, &op, &format!("s{i}_"), Envelope::C16);
+                            if !matches!(op, Op::ResumeStaked { .. }) {
+                                step::post_inv(&cx, &b, &out);
+                            }
+                            step::post_op(&cx, &b, &op, &out);
+                            trace.push(format!("{}:{}", op.name().split('{').next().unwrap_or(""), out.tx.kind()));
+                            if step::channel_orphan(&b, &op, &out) {
+                                symcore::note(format!("outcome=stopped@{i}:orphan"));
+                                symcore::note(format!("detail={}", trace.join(",")));
+                                return;
+                            }
+                        }
+                    }
                     H::Do(op, expect_ok) => {
                         let out = step::run(&mut b, op, &format!("s{i}_"), Envelope::C16);
                         // an admin override that re-bases the staked total is outside the invariant's menu (DESIGN 4.4):
@@ -375,6 +428,90 @@ pub fn histories(cfg: &CfgSpec, tier: &str) -> Vec<Case> {
                 ok(wd(1, 2)),
             ],
         );
+    }
+    v
+}
+
+
+/// Alphabet of the generated sequences (suite `seq`).
+pub fn alphabet() -> Vec<(&'static str, Vec<H>)> {
+    let st = |s: P, m: MintTo| H::Try(stake(s, m, vec![]));
+    vec![
+        ("stake", vec![st(P::U(0), MintTo::None)]),
+        ("stakeN", vec![st(P::U(1), MintTo::Native)]),
+        ("unstake", vec![H::Try(Op::Unstake { sender: P::U(0), funds: Funds::Lst })]),
+        ("submit", vec![H::Advance(DAY), H::Try(Op::Submit { sender: P::U(2) })]),
+        ("recv", vec![H::Advance(UNBOND), H::Dyn(DynOp::RecvOldest(P::HookStaker))]),
+        ("recv3", vec![H::Advance(UNBOND), H::Dyn(DynOp::RecvOldest(P::HookStaker3))]),
+        ("withdraw", vec![H::Dyn(DynOp::WithdrawAny(0))]),
+        ("rewards", vec![H::Try(Op::Rewards { sender: P::HookCollector, funds: Funds::Native, faults: vec![] })]),
+        ("rewards3", vec![H::Try(Op::Rewards { sender: P::HookCollector3, funds: Funds::Native, faults: vec![] })]),
+        ("rechannel", vec![H::Try(Op::UpdateConfig { sender: P::Admin, sections: crate::cfgops::S_PROTOCOL | crate::cfgops::S_KEEP_DENOM })]),
+        ("treasuryOn", vec![H::Try(Op::SetTreasury { on: true })]),
+        ("treasuryOff", vec![H::Try(Op::SetTreasury { on: false })]),
+        ("ibcErr", vec![H::Dyn(DynOp::IbcOldest(1))]),
+        ("ibcTimeout", vec![H::Dyn(DynOp::IbcOldest(2))]),
+        ("ibcOk", vec![H::Dyn(DynOp::IbcOldest(0))]),
+        ("recover", vec![H::Try(Op::Recover { sender: P::U(2), paginated: None, selected: None, receiver: None, faults: vec![] })]),
+        ("recoverN", vec![H::Try(Op::Recover { sender: P::U(2), paginated: Some(true), selected: None, receiver: Some("n1"), faults: vec![] })]),
+        ("feeWithdraw", vec![H::Try(Op::FeeWithdraw { sender: P::Admin })]),
+        ("breaker", vec![H::Try(Op::Breaker { sender: P::Monitor })]),
+        ("resume", vec![H::Try(Op::Resume { sender: P::Admin, consistent: true })]),
+        ("donate", vec![H::Try(Op::Donate { denom: Funds::Native })]),
+    ]
+}
+
+fn prefixes() -> Vec<(&'static str, Vec<H>)> {
+    let unstake = |u: usize| Op::Unstake { sender: P::U(u), funds: Funds::Lst };
+    vec![
+        ("p0", vec![H::Fix(true), resume(), ok(stake(P::U(0), MintTo::None, vec![])), ok(stake(P::U(1), MintTo::Native, vec![])), H::Fix(false)]),
+        (
+            "p1",
+            vec![
+                H::Fix(true),
+                resume(),
+                ok(stake(P::U(0), MintTo::None, vec![])),
+                ok(stake(P::U(1), MintTo::None, vec![])),
+                ok(unstake(0)),
+                ok(unstake(1)),
+                H::Advance(DAY),
+                ok(Op::Submit { sender: P::U(2) }),
+                ok(unstake(0)),
+                ok(Op::Rewards { sender: P::HookCollector, funds: Funds::Native, faults: vec![] }),
+                H::Fix(false),
+            ],
+        ),
+    ]
+}
+
+/// Every sequence of `depth` letters over the alphabet after each prefix; the quick tier keeps a seed-dependent 1/stride sample.
+pub fn sequences(cfg: &CfgSpec, tier: &str, seed: u64) -> Vec<Case> {
+    let al = alphabet();
+    let n = al.len();
+    let depth = 3;
+    // share of the 2 x 21^3 sequences that is explored: quick 1/48 (seed-dependent offset), thorough 1/6; SYMX_SEQ_STRIDE=1 explores all
+    let stride: usize = std::env::var("SYMX_SEQ_STRIDE").ok().and_then(|s| s.parse().ok()).unwrap_or(if tier == "thorough" { 6 } else { 48 });
+    let mut v = vec![];
+    for (pn, pre) in prefixes() {
+        let total = n.pow(depth as u32);
+        for code in 0..total {
+            if (code + seed as usize) % stride != 0 {
+                continue;
+            }
+            let mut steps = pre.clone();
+            let mut name = String::new();
+            let mut c = code;
+            for _ in 0..depth {
+                let (ln, hs) = &al[c % n];
+                c /= n;
+                steps.extend(hs.clone());
+                name.push_str(ln);
+                name.push('.');
+            }
+            let mut case = hist_case(&format!("{pn}.{name}"), cfg.clone(), steps);
+            case.name = case.name.replacen("hist:", "seq:", 1);
+            v.push(case);
+        }
     }
     v
 }
